@@ -150,8 +150,9 @@ def _bad_escape(e):
 # ------------------------------------------------------------------ C++ structure
 
 
-def function_body(src, qualname):
-    """Body (between the braces) and parameter text of the out-of-line definition `qualname(`."""
+def function_body(src, qualname, nparams=None):
+    """Body (between the braces) and parameter text of the out-of-line definition `qualname(`
+    (of the overload with `nparams` parameters, when given)."""
     hits = [m for m in re.finditer(r"\b" + re.escape(qualname) + r"\s*\(", src)]
     defs = []
     for m in hits:
@@ -162,7 +163,10 @@ def function_body(src, qualname):
         if tail:
             b0 = k + tail.end() - 1
             b1 = matching(src, b0)
-            defs.append((src[p0 + 1:p1], src[b0 + 1:b1]))
+            params = src[p0 + 1:p1]
+            if nparams is not None and len([p for p in split_top(params, ",") if p.strip()]) != nparams:
+                continue
+            defs.append((params, src[b0 + 1:b1]))
     if len(defs) != 1:
         raise Unsupported("%s: %d definitions" % (qualname, len(defs)))
     return defs[0]
@@ -828,24 +832,82 @@ def translate():
         raise Unsupported("entity add_back: no INSERT")
     out.append("/-- playlist_entity_table::add_back -/\ndef entityInsert : List (WB ECol EField) := %s\n" % lean_list(ins, "  "))
 
-    params, body = function_body(esrc, "playlist_entity_table::get")
+    def entity_select(nparams, fn, exp_params, exp_keys, exp_ops, name, doc, lambda_struct="playlist_entity_row"):
+        params, body = function_body(esrc, "playlist_entity_table::" + fn, nparams)
+        st = db_statements(body)
+        if ws(params) != exp_params or len(st) != 1:
+            raise Unsupported("entity %s: shape" % fn)
+        sql, ops, ex = parse_statement(st[0][1])
+        t, cols, keys = sql_select(sql)
+        if t != "PlaylistEntity" or ex is None or keys != exp_keys or [ws(o) for o in ops] != exp_ops:
+            raise Unsupported("entity %s: statement" % fn)
+        out.append("/-- playlist_entity_table::%s -/\ndef %s : List (RB ECol EField) := %s\n"
+                   % (doc, name, lean_list(read_bindings(E, lambda_struct, cols, ex), "  ")))
+        return body, st
+    entity_select(2, "get", "int64_t list_id, int64_t track_id", ["listId", "trackId"], ["list_id", "track_id"],
+                  "entitySelect", "get(list_id, track_id)")
+    entity_select(3, "get", "int64_t list_id, int64_t track_id, const std::string& database_uuid",
+                  ["listId", "trackId", "databaseUuid"], ["list_id", "track_id", "database_uuid"],
+                  "entitySelect3", "get(list_id, track_id, database_uuid)")
+    # get_for_list: the callback stores the row under its next_entity_id in a map, then the chain is
+    # walked backwards from key PLAYLIST_ENTITY_NO_NEXT_ENTITY_ID (that walk is hand-modelled: eGetForList)
+    params, body = function_body(esrc, "playlist_entity_table::get_for_list")
     st = db_statements(body)
-    if ws(params) != "int64_t list_id, int64_t track_id" or len(st) != 1:
-        raise Unsupported("entity get: shape")
+    if ws(params) != "int64_t list_id" or len(st) != 1:
+        raise Unsupported("entity get_for_list: shape")
     sql, ops, ex = parse_statement(st[0][1])
     t, cols, keys = sql_select(sql)
-    if t != "PlaylistEntity" or ex is None or keys != ["listId", "trackId"] or [ws(o) for o in ops] != ["list_id", "track_id"]:
-        raise Unsupported("entity get: statement")
-    out.append("/-- playlist_entity_table::get -/\ndef entitySelect : List (RB ECol EField) := %s\n"
-               % lean_list(read_bindings(E, "playlist_entity_row", cols, ex), "  "))
+    if t != "PlaylistEntity" or ex is None or keys != ["listId"] or [ws(o) for o in ops] != ["list_id"]:
+        raise Unsupported("entity get_for_list: statement")
+    ex2 = re.sub(r"next_entity_id_map\s*\[\s*next_entity_id\s*\]\s*=\s*playlist_entity_row", "result = playlist_entity_row", ex)
+    if ex2 == ex:
+        raise Unsupported("entity get_for_list: the callback does not store the row under its next_entity_id")
+    walk = ws(body[st[0][0] + len(st[0][1]):])
+    walk_expected = ("; std::list<playlist_entity_row> results; if (next_entity_id_map.empty()) return results; "
+                     "auto curr = next_entity_id_map.find(PLAYLIST_ENTITY_NO_NEXT_ENTITY_ID); "
+                     "assert(curr != next_entity_id_map.end()); do { auto id = curr->second.id; "
+                     "results.push_front(std::move(curr->second)); curr = next_entity_id_map.find(id); } "
+                     "while (curr != next_entity_id_map.end()); return results;")
+    if walk != walk_expected or ws(body[:st[0][0]]) != "std::unordered_map<int64_t, playlist_entity_row> next_entity_id_map;":
+        raise Unsupported("entity get_for_list: the chain walk changed")
+    out.append("/-- playlist_entity_table::get_for_list (per-row callback; the chain walk is Table/Lists.lean eGetForList) -/\n"
+               "def entitySelectList : List (RB ECol EField) := %s\n"
+               % lean_list(read_bindings(E, "playlist_entity_row", cols, ex2), "  "))
 
+    # remove(list_id, entity_id): the WHERE clause is translated (column, index of the bound parameter)
     params, body = function_body(esrc, "playlist_entity_table::remove")
     ps = [ws(p) for p in split_top(params, ",")]
     if len(ps) != 2 or not all(re.fullmatch(r"int64_t \w+", p) for p in ps):
         raise Unsupported("entity remove: parameters")
-    a0, a1 = ps[0].split()[1], ps[1].split()[1]
+    argnames = [ps[0].split()[1], ps[1].split()[1]]
+    st = db_statements(body)
+    if len(st) != 1:
+        raise Unsupported("entity remove: statements")
+    sql, ops, ex = parse_statement(st[0][1])
+    t, keys = sql_delete(sql)
+    if t != "PlaylistEntity" or ex is not None or len(ops) != len(keys):
+        raise Unsupported("entity remove: statement")
+    where = []
+    for k, o in zip(keys, ops):
+        if ws(o) not in argnames:
+            raise Unsupported("entity remove: WHERE operand " + ws(o))
+        where.append("(%s, %d)" % (E.col(k), argnames.index(ws(o))))
+    before = ws(body[:st[0][0]])
+    if before and not re.fullmatch(r"(\(void\) ?\w+; ?)*", before):
+        raise Unsupported("entity remove: code before the DELETE: " + before[:60])
+    after = ws(body[st[0][0] + len(st[0][1]):])
+    rx_after = r"; if \(context_->db\.rows_modified\(\) == 0\) \{? ?" + THROW_MISSING + r" ?\}?"
+    if re.fullmatch(rx_after, after):
+        checks = True
+    elif after in (";", ""):
+        checks = False
+    else:
+        raise Unsupported("entity remove: code after the DELETE: " + after[:80])
+    out.append("/-- playlist_entity_table::remove: `DELETE … WHERE col = ? AND …`, each column with the index of the\n"
+               "function parameter bound to its placeholder (0 = list_id, 1 = entity_id) -/\n"
+               "def entityRemoveWhere : List (ECol × Nat) := [%s]\n" % ", ".join(where))
     out.append("/-- playlist_entity_table::remove tests rows_modified() -/\ndef entityRemoveChecks : Bool := %s\n"
-               % ("true" if removes_check(body, "PlaylistEntity", ["listId", "id"], [a0, a1]) else "false"))
+               % ("true" if checks else "false"))
 
     # ---------------- information_table
     params, body = function_body(isrc, "information_table::get")
